@@ -137,6 +137,7 @@ def replay_script(harness_spec, params, script, rule):
 def _init_worker():
     # workers must be quiet and deterministic
     os.environ.setdefault('PYTHONHASHSEED', '0')
+    sys.stdout = open(os.devnull, 'w')   # simulators / mosaik_api print; only the main process reports
     import warnings
     warnings.simplefilter('ignore')
     try:
